@@ -260,8 +260,68 @@ def c2(repo: Repo) -> RuleResult:
 STANDARD = {8, 16, 32, 64}
 
 
+def _fold_pred(e: ast.AST, var: str, val: int) -> Optional[Any]:
+    """Constant folding of a pure arithmetic predicate over one integer
+    variable (finite split of the width domain 1..64; nothing of bitproto runs)."""
+    if isinstance(e, ast.Constant) and isinstance(e.value, (int, bool)):
+        return e.value
+    if isinstance(e, ast.Name):
+        return val if e.id == var else None
+    if isinstance(e, (ast.Set, ast.Tuple, ast.List)):
+        xs = [_fold_pred(x, var, val) for x in e.elts]
+        return None if any(x is None for x in xs) else set(xs)
+    if isinstance(e, ast.UnaryOp) and isinstance(e.op, ast.Not):
+        v = _fold_pred(e.operand, var, val)
+        return None if v is None else (not v)
+    if isinstance(e, ast.BoolOp):
+        vs = [_fold_pred(v, var, val) for v in e.values]
+        if any(v is None for v in vs):
+            return None
+        return all(vs) if isinstance(e.op, ast.And) else any(vs)
+    if isinstance(e, ast.BinOp):
+        l, r = _fold_pred(e.left, var, val), _fold_pred(e.right, var, val)
+        if l is None or r is None or isinstance(l, set) or isinstance(r, set):
+            return None
+        try:
+            return {ast.Add: lambda: l + r, ast.Sub: lambda: l - r, ast.Mult: lambda: l * r, ast.Mod: lambda: l % r, ast.FloorDiv: lambda: l // r, ast.BitAnd: lambda: l & r, ast.RShift: lambda: l >> r, ast.LShift: lambda: l << r}[type(e.op)]()
+        except (KeyError, ZeroDivisionError, ValueError):
+            return None
+    if isinstance(e, ast.Compare) and len(e.ops) == 1:
+        l, r = _fold_pred(e.left, var, val), _fold_pred(e.comparators[0], var, val)
+        if l is None or r is None:
+            return None
+        op = e.ops[0]
+        try:
+            if isinstance(op, ast.In):
+                return l in r
+            if isinstance(op, ast.NotIn):
+                return l not in r
+            return {ast.Eq: l == r, ast.NotEq: l != r, ast.Lt: l < r, ast.LtE: l <= r, ast.Gt: l > r, ast.GtE: l >= r}[type(op)]
+        except (KeyError, TypeError):
+            return None
+    return None
+
+
 def _skip_set(fn: ast.AST, var: str) -> Optional[Set[int]]:
-    """The literal set S in `if <var> in S: return`."""
+    """Widths w in 1..64 for which an early `if <pred(var)>: return` fires
+    (the literal-set form `var in {..}` and any foldable arithmetic predicate)."""
+    out: Set[int] = set()
+    found = False
+    for n in ast.walk(fn):
+        if isinstance(n, ast.If) and n.body and isinstance(n.body[-1], ast.Return) and var in [x.id for x in ast.walk(n.test) if isinstance(x, ast.Name)]:
+            if src_of(n.test) in ("is_encode",):
+                continue
+            ws = set()
+            for w in range(1, 65):
+                v = _fold_pred(n.test, var, w)
+                if v is None:
+                    return None
+                if v:
+                    ws.add(w)
+            out |= ws
+            found = True
+    if found:
+        return out
     for n in ast.walk(fn):
         if isinstance(n, ast.If) and isinstance(n.test, ast.Compare) and len(n.test.ops) == 1 and isinstance(n.test.ops[0], ast.In) and src_of(n.test.left) == var:
             if n.body and isinstance(n.body[-1], ast.Return):
